@@ -29,7 +29,31 @@ ERRORS = {
     "OSError": OSError,
     "socket.timeout": socket.timeout,  # alias of TimeoutError on 3.10+
 }
-ERROR_NAMES = tuple(sorted(ERRORS))
+ERRORS["TimeoutError"] = TimeoutError
+# Shapes of the injected exception object ("Name/shape"): real sockets raise OS errors with an
+# errno (default shape: errno 104 + text), with a message only (errno None: socket.timeout("timed
+# out"), OSError("cannot read from timed out object"), ssl errors) or, from wrappers, bare.
+ERROR_NAMES = tuple(sorted(n for n in ERRORS if n != "TimeoutError")) + (
+    "OSError/noerrno",
+    "ConnectionResetError/noargs",
+    "BlockingIOError/noerrno",
+    "TimeoutError/errno",
+    "OSError/bigerrno",
+)
+
+
+def make_error(spec):
+    name, _, shape = spec.partition("/")
+    cls = ERRORS[name]
+    if shape == "noerrno":
+        return cls(name + " without errno")
+    if shape == "noargs":
+        return cls()
+    if shape == "errno":
+        return cls(110, "Connection timed out")
+    if shape == "bigerrno":
+        return cls(10054, "unknown error number")  # e.g. a WinSock code: not in errno.errorcode
+    return cls(104, name)
 
 
 class SimBudgetExceeded(BaseException):
@@ -256,7 +280,7 @@ class SimSocket(socket.socket):
         if kind == "e":
             link._fire("recv_oserror:" + d[1])
             link.log.append(("recv", bufsize, "e:" + d[1], 0))
-            raise ERRORS[d[1]](104, d[1])
+            raise make_error(d[1])
         if kind == "c":
             link._fire("peer_close")
             link.end = link.pos
